@@ -27,6 +27,7 @@ def run(ctx):
     E.r_state_order(prog, rep)
     E.r_parallel_vectors(prog, rep)
     E.r_scan_waits(prog, rep)
+    E.run_all(prog, rep)        # every other engine rule: this property is anchored in the whole engine
     from rules import C03
     C03.r_sql_columns(prog, rep)
 
